@@ -22,7 +22,9 @@ Record run := {
 
 Inductive case :=
 | CTable (c2b : list (N * N))                           (* (char, byte), sorted by byte *)
-| CTok (o : opts) (new : new_out) (runs : list run) (decs : list (list N * dec_res)).
+| CTok (o : opts) (new : new_out)
+       (split_expected : bool)    (* the configured pre-tokenizer is one that must not drop text *)
+       (runs : list run) (decs : list (list N * dec_res)).
 
 Definition opt_eqb {A} (e : A -> A -> bool) (a b : option A) : bool :=
   match a, b with
@@ -59,7 +61,7 @@ Definition model_c2b : list (N * N) := map (fun b => (byte_to_char b, b)) bytes2
 Definition agree (c : case) : bool :=
   match c with
   | CTable t => list_eqb (fun p q => (fst p =? fst q) && (snd p =? snd q)) model_c2b t
-  | CTok o new runs decs =>
+  | CTok o new _ runs decs =>
       match bpe_new o, new with
       | inl b, NewOk =>
           forallb (run_agree b) runs
@@ -92,15 +94,22 @@ Definition splitting (r : run) : bool :=
 Definition lossless (r : run) : bool :=
   match r_norm r with None => true | Some (t, _) => ids_eqb t (r_text r) end.
 
-Definition run_ok (r : run) : bool :=
-  if splitting r then
-    match r_enc r with
-    | EncOk ids offs sl =>
-        (if norm_ok (r_text r) (r_norm r) then offsets_ok (r_text r) ids offs sl else true)
-        && (if lossless r then dec_eqb (r_dec r) (DecOk (r_text r)) else true)
-    | _ => false
-    end
-  else true.
+(* the property on the implementation's own output: offsets (when the normalizer's map is
+   usable) and round trip (when the normalizer left the text unchanged) *)
+Definition run_body (r : run) : bool :=
+  match r_enc r with
+  | EncOk ids offs sl =>
+      (if norm_ok (r_text r) (r_norm r) then offsets_ok (r_text r) ids offs sl else true)
+      && (if lossless r then dec_eqb (r_dec r) (DecOk (r_text r)) else true)
+  | _ => false
+  end.
+(* With a pre-tokenizer that is meant to split (GPT-2, Llama-3, BERT, digits, isolating splits,
+   none) the property is evaluated unconditionally: if the real pre-tokenizer dropped text, the
+   implementation's decode(encode(s)) <> s is the failure.  Only for the deliberately lossy
+   configurations (delimiter removal) is the check conditional on the chunks covering the text. *)
+Definition run_ok (split_expected : bool) (r : run) : bool :=
+  if split_expected then run_body r
+  else if splitting r then run_body r else true.
 
 (* byte <-> char: the implementation's map is a bijection between 0..255 and 256 distinct chars *)
 Fixpoint nodup_n (l : list N) : bool :=
@@ -123,26 +132,26 @@ Definition in_scope (o : opts) : bool :=
 Definition prop_ok (c : case) : bool :=
   match c with
   | CTable t => table_ok t
-  | CTok o new runs _ =>
+  | CTok o new se runs _ =>
       match new with
-      | NewOk => if in_scope o then forallb run_ok runs else true
+      | NewOk => if in_scope o then forallb (run_ok se) runs else true
       | NewErr _ => true
       | _ => false
       end
   end.
 
 (* replay aid *)
-Definition show_run (b : bpe) (r : run) :=
-  (tk_encode b (r_text r) (r_norm r) (r_pieces r), r_enc r, r_dec r,
-   (splitting r, norm_ok (r_text r) (r_norm r), lossless r, run_ok r)).
+Definition show_run (se : bool) (b : bpe) (r : run) :=
+  (r_text r, tk_encode b (r_text r) (r_norm r) (r_pieces r), r_enc r, r_dec r,
+   (splitting r, norm_ok (r_text r) (r_norm r), lossless r, run_ok se r)).
 Definition show (c : case) :=
   match c with
   | CTable t => (None, [], [])
-  | CTok o new runs decs =>
+  | CTok o new se runs decs =>
       match bpe_new o with
       | inl b =>
           (Some (NewOk, in_scope o),
-           map (show_run b) (filter (fun r => negb (run_agree b r && run_ok r)) runs),
+           map (show_run se b) (filter (fun r => negb (run_agree b r && run_ok se r)) runs),
            filter (fun d => negb (dec_eqb (decode b (fst d)) (snd d))) decs)
       | inr e => (Some (NewErr e, false), [], [])
       end
